@@ -199,6 +199,7 @@ class FakeConsumer(object):
         self._start_d = None
         self.start_d = None
         self._shutdown_d = None
+        self.quirk = "none"  # none | raises (shutdown() raises) | fails (shutdown() returns a failed Deferred)
 
     def start(self, offset):
         self.world.log.append("consumerStart %d %d %d %s %d %d" % (self.cid, self.topic, self.partition, opt(self.gen), self.member, offset))
@@ -207,8 +208,15 @@ class FakeConsumer(object):
         return self.start_d
 
     def shutdown(self):
+        from afkak.common import RestopError
+
         self.world.log.append("consumerShutdown %d" % self.cid)
+        if self.quirk == "raises":
+            raise KeyError("scripted: shutdown() raises")
         self.phase = "d"
+        if self.quirk == "fails":
+            self._shutdown_d = None
+            return defer.fail(Failure(RestopError("scripted: shutdown() returns a failed Deferred")))
         self._shutdown_d = defer.Deferred()
         return self._shutdown_d
 
@@ -275,6 +283,7 @@ class GroupWorld(object):
     def apply(self, ev):
         """Apply one event (text of the line protocol). Returns the observations of the step."""
         self.log = []
+        self.last_event = ev
         w = ev.split()
         op = w[0]
         g = self.group
@@ -347,7 +356,7 @@ class GroupWorld(object):
             if int(w[1]) >= len(self.consumers):
                 raise KeyError("no consumer %s" % w[1])
             c = self.consumers[int(w[1])]
-            if c.phase != "d":
+            if c.phase != "d" or c._shutdown_d is None:
                 raise KeyError("consumer %s is not draining" % w[1])
             c.complete_shutdown(w[2] == "ok")
         elif op == "consumerErr":
@@ -357,8 +366,15 @@ class GroupWorld(object):
             if c.phase == "s" or c.start_d.called:
                 raise KeyError("consumer %s cannot fail" % w[1])
             c.fail(w[2])
+        elif op == "consumerQuirk":
+            if int(w[1]) >= len(self.consumers) or self.consumers[int(w[1])].phase != "r":
+                raise KeyError("consumer %s is not running" % w[1])
+            self.consumers[int(w[1])].quirk = w[2]
         elif op == "fire":
             self.clock.fire(int(w[1]))
+            # the looper's next delay is Twisted's float arithmetic: an external answer for the model
+            nxt = [o for o in self.log if isinstance(o, list) and isinstance(o[1].func, LoopingCall)]
+            self.last_event = "fire %s%s" % (w[1], " " + show_frac(nxt[-1][2]) if nxt else "")
         elif op == "advance":
             dt = Fraction(w[1])
             self.now += dt
@@ -431,7 +447,9 @@ class GroupWorld(object):
             if self.client.has(k):
                 e[k] = True
         e["down"] = [c.cid for c in self.consumers if c.phase == "d"]
+        e["down"] = [c.cid for c in self.consumers if c.phase == "d" and c._shutdown_d is not None]
         e["cerr"] = [c.cid for c in self.consumers if c.phase in ("r", "d") and not c.start_d.called]
+        e["quirk"] = [c.cid for c in self.consumers if c.phase == "r" and c.quirk == "none"]
         nd = self.clock.next_due()
         e["timer"] = (nd.verif_id, frac(nd.getTime())) if nd is not None else None
         return e
